@@ -652,7 +652,13 @@ def s_scripts():
     raw = st.binary(max_size=40).map(lambda b: {"shape": "raw", "script": b.hex()})
     trunc = st.builds(lambda d, cut: {"shape": "truncated", "script": bytes.fromhex(d["script"])[:max(0, len(d["script"]) // 2 - cut)].hex()},
                       st.one_of(tmpl("p2pkh", b"\x76\xa9", b"\x88\xac", [20]), multisig), st.integers(1, 30))
-    shapes = st.one_of(tmpl("p2pkh", b"\x76\xa9", b"\x88\xac", [20]), tmpl("p2sh", b"\xa9", b"\x87", [20]),
+    # a bare length byte where a push should be: the byte b in 76..130 followed by exactly b bytes and the template's tail looks
+    # like "<b-byte push>" to code that reads lengths by hand, but 76..78 are OP_PUSHDATA1/2/4 and 79.. are ordinary opcodes
+    def fake_push(pre, post, b, blobv):
+        return {"shape": "bare-length-byte", "script": (pre + bytes([b]) + (blobv * 3)[:b] + post).hex()}
+    fake = st.builds(fake_push, st.sampled_from([b"", b"", b"\x76\xa9", b"\xa9", b"\x00", b"\x51"]),
+                     st.sampled_from([b"\xac", b"\xac", b"\x88\xac", b"\x87", b""]), st.integers(76, 130), blob)
+    shapes = st.one_of(fake, tmpl("p2pkh", b"\x76\xa9", b"\x88\xac", [20]), tmpl("p2sh", b"\xa9", b"\x87", [20]),
                        tmpl("p2pk", b"", b"\xac", [33, 65]), tmpl("p2wpkh-p2wsh", b"\x00", b"", [20, 32]), tmpl("p2tr", b"\x51", b"", [32]),
                        witness, multisig, multisig, nulldata, grammar, raw, trunc)
     return st.builds(lambda code, d: dict(d, net=code), st.sampled_from(CODES), shapes)
